@@ -87,11 +87,11 @@ func runQuery(L *Loaded, asserts []*smt.Term, gets []*smt.Term, timeout, seed in
 	}
 	solverSem <- struct{}{}
 	res, err := smt.SolveWithAbstraction(sc, abs, weak, light, len(gets), timeout, seed, os.Getenv("GOVC_SOLVER"))
-	if err == nil && crossCheck && res.Verdict == smt.Unsat && res.Seconds <= 20 {
+	if err == nil && crossCheck && res.Verdict == smt.Unsat && res.Seconds <= 5 {
 		// thorough tier: every back end runs the full script to completion (bounded at 30 s; queries
 		// whose first answer already took longer than 20 s are not repeated); a second independent
 		// "unsat" is recorded, a "sat" against the winner's "unsat" is noted
-		t := 30
+		t := 10
 		agree, sat := 0, 0
 		for _, r := range smt.SolveAll(sc, 0, t, seed) {
 			switch r.Verdict {
